@@ -412,6 +412,11 @@ def step (w : World) (line : String) : World × String :=
   | ["trace"] => (w, lst (fmtTrace w))
   | ["snap"] => (w, snapshot w)
   | "q" :: ts => query w ts
+  | ["ready", k] =>
+    -- `Dispatcher.is_operation_ready(operation)`: the operation is the next one of its job
+    (match k.toNat?.bind (refOfId w.cfg.I) with
+     | some r => (w, if w.s.jobIdx.getD r.1 0 == r.2 then "true" else "false")
+     | none => (w, "bad-op"))
   | "flt" :: rest =>
     let fs := rest.takeWhile (· ≠ ";")
     let ids := (rest.dropWhile (· ≠ ";")).drop 1
@@ -741,6 +746,16 @@ def stepRest (d : DW) (line : String) : DW × String :=
        let frames := (List.range h.length).map fun k => fmtBars (bars (replayHist I (h.take (k + 1))))
        (d, s!"xlim {(makespan (replayHist I h)).toNat} " ++ " / ".intercalate frames)
      | none => (d, "bad-op"))
+  | "fresx" :: b :: rm :: rj :: ids =>
+    -- the graph handed to the updater was pruned by its owner beforehand (`graph.remove_node(k)` for the given node ids, in order)
+    match parseBuilder b, nats? ids with
+    | some bb, some ks =>
+      let g0 := build bb d.fw.cfg.I
+      let g := ks.foldl (fun g k => if k < g.nodes.length && !(g.removed.getD k true) then g.removeNode k else g) g0
+      (match d.fw.constructResidual g (rm == "1") (rj == "1") with
+       | (fw', some id) => ({ d with fw := fw' }, toString id)
+       | (fw', none) => ({ d with fw := fw' }, "raise"))
+    | _, _ => (d, "bad-op")
   | ["fres", b, rm, rj] =>
     match parseBuilder b with
     | some bb =>
